@@ -180,6 +180,23 @@ func joeShmEvents(seq uint64) []val.V {
 	return v.Items()
 }
 
+// joeUsesServer: some subscriber or publication of the scenario goes through sse.Server.
+func joeUsesServer(sc val.V) bool {
+	for _, x := range sc.At(2).Items() {
+		if x.At(6).Num()&jViaServer != 0 {
+			return true
+		}
+	}
+	for _, t := range sc.At(3).Items() {
+		for _, m := range t.At(1).Items() {
+			if m.At(5).Num()&jPubServer != 0 {
+				return true
+			}
+		}
+	}
+	return false
+}
+
 // execJoe runs one scenario on the real Joe (in the child) and returns ( status events ).
 // The input is ( scenario ) or ( scenario old-observation ): element 0 is what is run.
 func execJoe(in val.V) val.V {
@@ -218,8 +235,11 @@ func execJoe(in val.V) val.V {
 			if err != nil {
 				return crashed(1)
 			}
-			if res.At(0).Num() != 0 {
-				// a stuck scenario: the child exits by itself (its goroutines are leaked)
+			if res.At(0).Num() != 0 || joeUsesServer(sc) {
+				// a stuck scenario: the child exits by itself (its goroutines are leaked).
+				// A scenario that went through sse.Server: the next one gets a fresh process, so that whatever the
+				// Server's package-level state is after it cannot decide another scenario's outcome (every scenario
+				// is judged, and replayed, on its own)
 				c.stop()
 				joeParent.child = nil
 			}
